@@ -189,6 +189,7 @@ func (s *LinearState) Add(ctx *Context, id string, x Map) (string, error) {
 	if err = s.store.Add(ctx, s.Name, pair); err != nil {
 		return id, err
 	}
+	verifPoint("LinearState.Add.afterStore")
 
 	if s.addHook != nil {
 		if err := s.addHook(ctx, s, id, m, ctx.GetLoc().loading); err != nil {
@@ -239,6 +240,7 @@ func (s *LinearState) rem(ctx *Context, id string, lock bool) (bool, error) {
 		Log(ERROR, ctx, "LinearState.rem", "id", id, "error", err)
 		return false, err
 	}
+	verifPoint("LinearState.rem.afterStore")
 	s.uncacheRule(id)
 	_, had := s.Facts[id]
 	if had {
